@@ -257,6 +257,11 @@ func VsObserve(x interface{}) {
 }
 
 func VsClass(text string) {
+	for _, have := range strings.Split(res.Class, ",") {
+		if have == text {
+			return
+		}
+	}
 	if res.Class != "" {
 		res.Class += ","
 	}
